@@ -1,5 +1,5 @@
 #!/bin/sh
-# tools/overlay.sh [rtseam]: writes a go build -overlay JSON that ADDS (never replaces) two small files to the
+# tools/overlay.sh [rtseam|sched]: writes a go build -overlay JSON that ADDS (never replaces) two small files to the
 # repository under test, giving the harness read access to the registered filter functions (their real
 # signatures are the arity oracle of C08). With the argument "rtseam" the runtime map-iteration seam of C02 is
 # merged in. Prints the path of the JSON. Nothing in $VERIF_REPO is touched.
@@ -31,7 +31,18 @@ if [ "${1:-}" = "rtseam" ]; then
 	EXTRA=$(python3 -c "import json,sys; d=json.load(open('$RT'))['Replace']; print(','.join(json.dumps(k)+':'+json.dumps(v) for k,v in d.items()))")
 	EXTRA=",$EXTRA"
 fi
-cat > "$OUT/overlay.json" <<JSON
+if [ "${1:-}" = "sched" ]; then
+	# C04 scheduler build: every non-test file of the repository that imports "sync" is compiled from a copy
+	# DERIVED NOW from the working tree in which only that import line is rewritten to the cooperative shim
+	# (verifmc/syncshim), so locks, onces, pools and concurrent maps become scheduling points.
+	rm -rf "$OUT/sync"; mkdir -p "$OUT/sync"
+	for f in $(cd "$REPO" && grep -rlE '^[[:space:]]*(import[[:space:]]+)?"sync"[[:space:]]*$' --include='*.go' . | grep -v '_test\.go$' | sed 's#^\./##'); do
+		d="$OUT/sync/$(echo "$f" | tr '/' '_')"
+		sed -E 's#^([[:space:]]*(import[[:space:]]+)?)"sync"[[:space:]]*$#\1sync "verifmc/syncshim"#' "$REPO/$f" > "$d"
+		EXTRA="$EXTRA,\"$REPO/$f\":\"$d\""
+	done
+fi
+cat > "$OUT/overlay.${1:-plain}.json" <<JSON
 {"Replace": {"$REPO/verif_export.go": "$OUT/liquid_verif_export.go", "$REPO/expressions/verif_export.go": "$OUT/expressions_verif_export.go"$EXTRA}}
 JSON
-echo "$OUT/overlay.json"
+echo "$OUT/overlay.${1:-plain}.json"
